@@ -321,7 +321,7 @@ def run(ctx):
         "distinct_nontrivial": len(set(lines)),
         "rule": "one evaluation = one history (skip commands at filter / step / state-model level interleaved with predict and correct) on one "
                 "filter configuration; exhaustive part: every reachable flag state x every command (5 names + %d unknown names at filter level, "
-                "8 names at prediction level, correction level) x on/off x %d prediction/correction pairings x with/without exogenous model, "
+                "8 names at prediction level, correction level) x on/off x %d prediction/correction pairings x with/without exogenous model (+ the two-argument DrawParticles constructor), "
                 "each followed by predict, correct, skip('all', false), predict, correct; plus every raw flag combination through state-model-level "
                 "commands (notes only); plus random histories up to length 12; distinct = distinct input lines (all are non-trivial: every line "
                 "contains at least one command or step)" % (len(UNKNOWN), len(CONFIGS)),
